@@ -494,6 +494,9 @@ func genC12(w *bufio.Writer, rng *hx.Rng, tier string) {
 	// ===== 2b. well-formed rows with their expected fields: the fidelity clause on the implementation =====
 	genC12Rows(w, rng, pick(4000, 50000))
 
+	// ===== 2d. the real Pipeline.In on a sub-slice of a larger buffer, sizes around max_event_size =====
+	genC12In(w, rng, thorough)
+
 	// ===== 2c. one shared decoder, concurrent callers =====
 	genC12Conc(w, rng, thorough)
 
